@@ -7,3 +7,4 @@ import BqlVerif.Properties.C15
 import BqlVerif.Properties.C07
 import BqlVerif.Properties.C08
 import BqlVerif.Properties.C09
+import BqlVerif.Properties.C04
